@@ -51,15 +51,15 @@ func pipeOpts(mode string) gen.Opts {
 	case "text": // compile-level families: names and labels with every kind of character
 		return gen.Opts{MaxObjs: 6, MaxEdges: 4, Tricky: true, Containers: true, Styles: true, Classes: true, Boards: true, Markdown: true, Direction: true, Grid: true, Sequence: true, Near: true, Sizes: true}
 	case "layout":
-		return gen.Opts{MaxObjs: 7, MaxEdges: 5, Tricky: false, Containers: true, Styles: true, Sizes: true, AllShapes: true, Direction: true, Grid: true, Sequence: true, Near: true, Icons: true}
+		return gen.Opts{MaxObjs: 7, MaxEdges: 5, Tricky: false, Containers: true, Styles: true, Sizes: true, AllShapes: true, Direction: true, Grid: true, Sequence: true, Near: true, Icons: true, LabelPos: true, CrossEdges: true}
 	case "layout-tricky":
 		return gen.Opts{MaxObjs: 5, MaxEdges: 3, Tricky: true, Containers: true, Sizes: true, Direction: true, Markdown: true}
 	case "grid":
-		return gen.Opts{MaxObjs: 2, MaxEdges: 1, Grid: true, SpecialOnly: "grid"}
+		return gen.Opts{MaxObjs: 2, MaxEdges: 1, Grid: true, SpecialOnly: "grid", CrossEdges: true}
 	case "sequence":
-		return gen.Opts{MaxObjs: 2, MaxEdges: 1, Sequence: true, SpecialOnly: "sequence"}
+		return gen.Opts{MaxObjs: 2, MaxEdges: 1, Sequence: true, SpecialOnly: "sequence", CrossEdges: true}
 	case "near":
-		return gen.Opts{MaxObjs: 4, MaxEdges: 3, Containers: true, Near: true, SpecialOnly: "near", Sizes: true}
+		return gen.Opts{MaxObjs: 4, MaxEdges: 3, Containers: true, Near: true, SpecialOnly: "near", Sizes: true, LabelPos: true}
 	case "render-plain": // the same diagrams as "render" without special characters: the marker-free twin the SVG vocabulary is learnt from
 		o := pipeOpts("render")
 		o.Tricky = false
